@@ -332,6 +332,16 @@ def canon_line(line, srv):
         m = re.match(r"^(212 \S*) ", rest)
         if m:
             return pre + m.group(1) + " T"
+    if code == "324":
+        toks = rest.split(" ")
+        # 324 client chan +flags [key] [limit] (+x arg)*  - the list entries come in hash order
+        if len(toks) >= 4:
+            fl = toks[3]
+            nfix = 4 + (1 if "k" in fl else 0) + (1 if "l" in fl else 0)
+            tail = toks[nfix:]
+            if len(tail) % 2 == 0:
+                pairs = sorted(zip(tail[0::2], tail[1::2]))
+                return pre + " ".join(toks[:nfix] + [x for p2 in pairs for x in p2])
     if code == "312":
         return re.sub(r":Logged in at .*$", ":Logged in at T", line)
     return line
